@@ -1365,7 +1365,7 @@ def _rand_corrupt(rnd, w):
             else:
                 obj[p] = json.loads(rnd.choice(KINDS))
             w.fs.files[TARGET] = json.dumps(obj).encode()
-        except ValueError:
+        except (ValueError, RecursionError):     # the stored file is no JSON (or nested too deeply): leave it as it is
             pass
 
 
